@@ -160,6 +160,15 @@ func PropC17Race(c *vs.Case, f Factory, kind string) error {
 				}
 				env.W.SyncAll()
 			}
+			if r == 2 {
+				// scale every parent down: concurrent deletes of children that are no longer desired
+				for _, p := range parents {
+					env.W.Sim.ExtUpdate("things", "ns1", metaStr(p, "name"), func(o map[string]any) {
+						o["spec"].(map[string]any)["replicas"] = int64(1)
+					})
+				}
+				env.W.SyncAll()
+			}
 			jobs := make(chan map[string]any, len(parents)*2)
 			for rep := 0; rep < 2; rep++ {
 				for _, p := range parents {
